@@ -24,7 +24,7 @@ S = Suite(
     what="save_footprints_to_netcdf -> load_footprints_from_netcdf on synthetic and "
          "solver-produced multi-tower, multi-step result sets",
     bound="towers 1..4 x steps 1..4 x {2-D, 3-D (2..4 levels)} x grids 3..9 cells per axis "
-          "(nx != ny) x {float64, float32 fields} x {str, int timestamps} x {ustar, z0, both}; "
+          "(nx != ny) x {float64, float32, mixed (first result float32, later ones float64) fields} x {str, int timestamps} x {ustar, z0, both}; "
           "values: normal*10^k, negatives, +-0.0, denormals, +-1e300, float max/min; NaN/inf "
           "fields, duplicate timestamps and result orders other than config.towers not examined",
     rule="bit equality (uint64 view of float64) of every slice; exact equality of coordinates, "
@@ -218,7 +218,7 @@ def synthetic(n_towers, n_time, dim, nx, ny, nz_out, dtype, tstype, forcing, see
     y = np.linspace(0, cfg.domain.ymax, ny, endpoint=False)
     results = {}
     zl = np.cumsum(rs.uniform(0.1, 2.0, nz_out))      # output heights, common to all results
-    for tw in cfg.towers:
+    for ti, tw in enumerate(cfg.towers):
         lst = []
         for t in range(n_time):
             if dim == 3:
@@ -229,8 +229,11 @@ def synthetic(n_towers, n_time, dim, nx, ny, nz_out, dtype, tstype, forcing, see
                 Z, Y, X = np.squeeze(Z, 0), np.squeeze(Y, 0), np.squeeze(X, 0)
                 shape = (ny, nx)
             p = _params(met, t, tstype)
-            lst.append({"grid": (X, Y, Z), "conc": _field(rs, shape, dtype),
-                        "flx": _field(rs, shape, dtype), "tower_name": tw.name,
+            # "mixed": the first result in single precision, later ones in double (a tower on the reference point of a
+            # dispersion run keeps float32 fields, the others are promoted by the complex128 shift factor)
+            dt = dtype if dtype != "mixed" else ("float32" if (ti == 0 and t == 0) else "float64")
+            lst.append({"grid": (X, Y, Z), "conc": _field(rs, shape, dt),
+                        "flx": _field(rs, shape, dt), "tower_name": tw.name,
                         "tower_xy": (tw.x, tw.y), "timestamp": p["timestamp"], "params": p})
         results[tw.name] = lst
     return _check(results, cfg, "synthetic")
@@ -279,11 +282,11 @@ def generate(tier, rng):
             if tier == "quick":
                 forcing = ("ustar", "z0", "both")[(k + rep) % 3]
                 tstype = ("str", "int", "none")[(k // 3 + rep) % 3]
-                dtype = "float32" if k % 8 == 5 else "float64"
+                dtype = "float32" if k % 8 == 5 else ("mixed" if k % 8 == 2 else "float64")
             else:
                 forcing = ("ustar", "z0", "both")[(k + rep) % 3]
                 tstype = ("str", "int", "none")[(k // 3 + rep // 3) % 3]
-                dtype = "float32" if (k + rep) % 8 == 5 else "float64"
+                dtype = "float32" if (k + rep) % 8 == 5 else ("mixed" if (k + rep) % 8 == 2 else "float64")
             yield "synthetic", dict(n_towers=nt, n_time=ns, dim=dim, nx=nx, ny=ny,
                                     nz_out=rng.randint(2, 4), dtype=dtype, tstype=tstype,
                                     forcing=forcing, seed=rng.randrange(2 ** 31))
